@@ -109,6 +109,13 @@ def euler_case(draw):
                   'repeats': 3, 'dims': draw(st.sampled_from([[3, 2, 2, 2, 3], [2, 3, 2, 2, 3], [2, 2, 2, 2, 2, 2], [2, 2, 2, 2, 2]]))})
         if c['normalize'] == 1:
             c['normalize'] = 0
+    elif draw(st.sampled_from([False] * 9 + [True])):
+        # a ramp of step sizes that starts with a tiny step (1e-7), from a rank-one initial value under an operator of low TT rank: after
+        # the first step the state is numerically of rank 1 + r_A, later it needs the maximal ranks the guess provides
+        c.update({'tt_solver': 'als', 'scheme': 'implicit', 'local': True, 'x_rank': 1, 'dims': [2, 2, 2, 2], 'x_scale_exp': 0,
+                  'steps': [1e-7] + c['steps'][:3], 'tiny_first_step': True})
+        if c['normalize'] == 1:
+            c['normalize'] = 0
     return c
 
 
@@ -198,6 +205,8 @@ def body_euler(c):
         lab.add('mals_from_rank_one_guess')
     if len(dims) >= 5:
         lab.add('order>=5')
+    if c.get('tiny_first_step'):
+        lab.add('step_ramp_from_1e-7')
     return lab
 
 
@@ -316,7 +325,9 @@ def errors_case(draw):
     dims = draw(st.sampled_from(DIMS))
     return {'dims': dims, 'seed': draw(gen.SEED), 'cplx': draw(st.booleans()), 'n': draw(st.integers(1, 4)),
             'steps': draw(st.lists(STEPS, min_size=4, max_size=4)), 'which': draw(st.sampled_from(['explicit', 'implicit', 'trapezoidal'])),
-            'rank': draw(st.integers(1, 3))}
+            'rank': draw(st.integers(1, 3)),
+            # a trajectory that satisfies its recurrence up to rounding (what the integrators produce): the defect is then ~1e-16
+            'consistent': draw(st.sampled_from([False, False, True]))}
 
 
 def body_errors(c):
@@ -329,6 +340,17 @@ def body_errors(c):
     r = [1] + [min(c['rank'], mr[i]) for i in range(1, d)] + [1]
     xs = [rnd_tt(rng, dims, r, c['cplx']) for _ in range(c['n'] + 1)]
     steps = c['steps'][:c['n']]
+    if c.get('consistent'):
+        In = np.eye(A.shape[0])
+        for i, h in enumerate(steps):
+            a = vec(xs[i])
+            if c['which'] == 'explicit':
+                nxt = (In + h * A) @ a
+            elif c['which'] == 'implicit':
+                nxt = np.linalg.solve(In - h * A, a)
+            else:
+                nxt = np.linalg.solve(In - 0.5 * h * A, (In + 0.5 * h * A) @ a)
+            xs[i + 1] = TT(dense.vec_cores(nxt, dims))
     snaps = [(t, build.snapshot(t)) for t in [op] + xs]
     f = {'explicit': ode.errors_expl_euler, 'implicit': ode.errors_impl_euler, 'trapezoidal': ode.errors_trapezoidal}[c['which']]
     got = f(op, xs, list(steps))
@@ -347,6 +369,8 @@ def body_errors(c):
             want = np.linalg.norm((I - 0.5 * h * A) @ b - rhs) / np.linalg.norm(rhs)
         close(np.asarray(got[i], dtype=float), want, 1e-9, max(want, 1.0), 'error_value', '%s defect of step %d' % (c['which'], i + 1))
     lab = {'errors_' + c['which']}
+    if c.get('consistent'):
+        lab.add('trajectory_satisfies_its_recurrence')
     if c['cplx']:
         lab.add('complex')
     if len(set(steps)) > 1:
